@@ -54,7 +54,7 @@ class Group:
                  wrap_checks=False, kind="proof", timeout=900, bound=None,
                  must_fail=(), expect_classes=(), replay=None, tiers=("quick", "thorough"),
                  functions=(), extra_cbmc=(), note="", safety=True, assumed=(),
-                 drop_unused=False, object_bits=None, nondet_static=False):
+                 drop_unused=False, object_bits=12, nondet_static=False):
         self.name = name
         self.props = list(props)
         self.harness = harness
@@ -204,7 +204,10 @@ def run_group(g, reach=False, keep=False):
         if g.unwind is not None:
             cb += ["--unwind", str(g.unwind)]
         if g.unwindset:
-            cb += ["--unwindset", ",".join(g.unwindset)]
+            # DFCC moves the body of the enforced function to <f>_wrapped_for_contract_checking
+            us = [(u.replace(g.enforce + ".", g.enforce + "_wrapped_for_contract_checking.", 1)
+                   if g.enforce and u.startswith(g.enforce + ".") else u) for u in g.unwindset]
+            cb += ["--unwindset", ",".join(us)]
         if g.unwind is not None or g.unwindset:
             cb += ["--unwinding-assertions"]
         if g.object_bits:
